@@ -45,6 +45,8 @@ def cases(tier, seed):
         out.append(_case(f"numpy:fixed2+const:dt=1:{rng}:K=3", backend="numpy", K=3, range=rng, dt=1, a=0.5, trackers=[{"kind": "fixed", "L": 2}, {"kind": "const", "min_ratio": 0.5}]))
         out.append(_case(f"numpy:log:dt=1:{rng}:K=4", backend="numpy", K=4, range=rng, dt=1, a=0.5, trackers=[{"kind": "log", "factor": "sym"}]))
         out.append(_case(f"numpy:rk:1const:dt=1:{rng}:K=3", backend="numpy", solver="runge-kutta", K=3, range=rng, dt=1, a=0.5, trackers=c1))
+        out.append(_case(f"numpy:ab:1const:dt=1:{rng}:K=4", backend="numpy", solver="adams-bashforth", K=4, range=rng, dt=1, a=0.5, trackers=c1))
+        out.append(_case(f"numba:ab:1const:dt=1:{rng}:K=3", backend="numba", solver="adams-bashforth", K=3, range=rng, dt=1, a=0.5, trackers=c1))
     if not q:
         out.append(_case("numba:2const:dt=1:whole:K=4", backend="numba", K=4, range="whole", dt=1, a=0.5, trackers=c2))
         out.append(_case("numpy:3const:dt=1:whole:K=3", backend="numpy", K=3, range="whole", dt=1, a=0.5, trackers=c2 + [{"kind": "const", "min_ratio": 0.5}]))
@@ -72,8 +74,9 @@ def scenario_c07(env, cfg):
     env.prove("returned-state-is-not-the-initial-object", r["final"] is not r["init"])
     calls = r["calls"]
     if calls is not None:
-        per_step = {"euler": 1, "runge-kutta": 4}[r["solver"]]
-        env.prove("rate-evaluations=steps*stages", len(calls) == n * per_step)
+        per_step = {"euler": 1, "runge-kutta": 4, "adams-bashforth": 2}[r["solver"]]
+        extra = 1 if r["solver"] == "adams-bashforth" and n > 0 else 0  # bootstrap evaluation
+        env.prove("rate-evaluations=steps*stages", len(calls) == n * per_step + extra)
         if per_step == 1:
             for i, tc in enumerate(calls):
                 env.close(f"rate-evaluated-at-t_start+i*dt:{i}", tc, ts + i * dt, scale=tscale)
